@@ -77,7 +77,7 @@ func genOffender(seed uint64, tier string, force string) *Scenario {
 	sc.World.Modules = []string{"vikja", "odal", "dagaz"}
 	sc.World.IdleTimeout = 24 * time.Hour
 	off := &Offence{}
-	kinds := []string{"frames", "frames", "frames", "burst_fail", "burst_fail", "midframe", "stall", "stall", "silence", "keepalive", "update_then_close", "update_then_close", "close_amid", "close_amid"}
+	kinds := []string{"frames", "frames", "frames", "burst_fail", "burst_fail", "midframe", "stall", "stall", "silence", "keepalive", "boundary", "update_then_close", "update_then_close", "close_amid", "close_amid"}
 	off.Kind = kinds[r.Intn(len(kinds))]
 	if force != "" {
 		off.Kind = force
@@ -173,6 +173,17 @@ func genOffender(seed uint64, tier string, force string) *Scenario {
 			}
 		}
 		off.Then = []string{"fin", "rst"}[r.Intn(2)]
+	case "boundary":
+		sc.World.IdleTimeout = []time.Duration{time.Second, 2 * time.Second, 30 * time.Second}[r.Intn(3)]
+		sc.World.FrameDuration = sc.World.IdleTimeout / 200
+		sc.World.Net.MinLat, sc.World.Net.Jitter = 100*time.Microsecond, 0
+		sc.World.Net.SplitProb = 0
+		sc.World.StallProb = 0
+		sc.World.Summary = time.Minute
+		if sc.World.Policy == "seq" {
+			sc.World.Policy = "rand"
+		}
+		off.N = r.Intn(3)
 	case "silence", "keepalive":
 		off.Skew = []int64{0, 0, 3600, -3600, 86400 * 365, -946684000}[r.Intn(6)]
 		if off.Kind == "silence" && r.Bool(0.3) {
